@@ -21,24 +21,79 @@ const MetalNS = "metallb-system"
 
 // ---------------------------------------------------------------- selectors
 
-// Sel is a matchLabels-only label selector (nil/empty map = matches everything).
+// Sel is a label selector in plain-data form. Plain keys are matchLabels
+// entries; the prefixed keys encode matchExpressions:
+//
+//	"!k": ""   k DoesNotExist        "?k": ""   k Exists
+//	"k!": "v"  k NotIn (v)           "k=": "v"  k In (v)
+//
+// The empty Sel is the empty selector {} and matches everything.
 type Sel map[string]string
 
 func (s Sel) Matches(l map[string]string) bool {
 	for k, v := range s {
-		if l[k] != v {
-			return false
+		switch {
+		case strings.HasPrefix(k, "!"):
+			if _, ok := l[k[1:]]; ok {
+				return false
+			}
+		case strings.HasPrefix(k, "?"):
+			if _, ok := l[k[1:]]; !ok {
+				return false
+			}
+		case strings.HasSuffix(k, "!"):
+			if w, ok := l[k[:len(k)-1]]; ok && w == v {
+				return false
+			}
+		case strings.HasSuffix(k, "="):
+			if w, ok := l[k[:len(k)-1]]; !ok || w != v {
+				return false
+			}
+		default:
+			if w, ok := l[k]; !ok || w != v {
+				return false
+			}
 		}
 	}
 	return true
 }
 
 func (s Sel) LS() metav1.LabelSelector {
-	m := map[string]string{}
-	for k, v := range s {
-		m[k] = v
+	ls := metav1.LabelSelector{}
+	keys := make([]string, 0, len(s))
+	for k := range s {
+		keys = append(keys, k)
 	}
-	return metav1.LabelSelector{MatchLabels: m}
+	sort.Strings(keys)
+	for _, k := range keys {
+		v := s[k]
+		switch {
+		case strings.HasPrefix(k, "!"):
+			ls.MatchExpressions = append(ls.MatchExpressions, metav1.LabelSelectorRequirement{Key: k[1:], Operator: metav1.LabelSelectorOpDoesNotExist})
+		case strings.HasPrefix(k, "?"):
+			ls.MatchExpressions = append(ls.MatchExpressions, metav1.LabelSelectorRequirement{Key: k[1:], Operator: metav1.LabelSelectorOpExists})
+		case strings.HasSuffix(k, "!"):
+			ls.MatchExpressions = append(ls.MatchExpressions, metav1.LabelSelectorRequirement{Key: k[:len(k)-1], Operator: metav1.LabelSelectorOpNotIn, Values: []string{v}})
+		case strings.HasSuffix(k, "="):
+			ls.MatchExpressions = append(ls.MatchExpressions, metav1.LabelSelectorRequirement{Key: k[:len(k)-1], Operator: metav1.LabelSelectorOpIn, Values: []string{v}})
+		default:
+			if ls.MatchLabels == nil {
+				ls.MatchLabels = map[string]string{}
+			}
+			ls.MatchLabels[k] = v
+		}
+	}
+	return ls
+}
+
+// IsPlain: only matchLabels entries (usable as a label set).
+func (s Sel) IsPlain() bool {
+	for k := range s {
+		if strings.HasPrefix(k, "!") || strings.HasPrefix(k, "?") || strings.HasSuffix(k, "!") || strings.HasSuffix(k, "=") {
+			return false
+		}
+	}
+	return true
 }
 
 func selsLS(ss []Sel) []metav1.LabelSelector {
